@@ -17,7 +17,7 @@ use yash_syntax::syntax::List;
 
 const NAMES: [&str; 3] = ["a", "b", "c"];
 /// None = undefined
-const VALUES: [Option<&str>; 17] = [
+const VALUES: [Option<&str>; 20] = [
     None,
     Some(""),
     Some("b"),
@@ -35,6 +35,10 @@ const VALUES: [Option<&str>; 17] = [
     Some("'b'"),
     Some("\\b"),
     Some("2>&1 x "),
+    // a blank is a space or a tab
+    Some("b\t"),
+    Some("x \t"),
+    Some("a\t "),
 ];
 
 const LINES: [&str; 32] = [
